@@ -5,7 +5,9 @@ import (
 	"encoding/json"
 	"fmt"
 	"os"
+	"os/exec"
 	"os/signal"
+	"runtime"
 	"strconv"
 	"strings"
 	"syscall"
@@ -171,6 +173,15 @@ func TestWorker(t *testing.T) {
 		}
 		emit(propInfoJSON(pd))
 	case "sentinel":
+		if name := os.Getenv("VS_SENTINEL_PLAN"); name != "" {
+			mkp := sentinelPlans[name]
+			if mkp == nil {
+				t.Fatalf("unknown sentinel plan %q", name)
+			}
+			res := RunPlan(t, mkp(), replayTape(nil), pd.chk, false)
+			emit(map[string]any{"sentinel": true, "viol": res.Viol})
+			return
+		}
 		var script [][]string
 		if err := json.Unmarshal([]byte(os.Getenv("VS_SCRIPT")), &script); err != nil {
 			t.Fatal(err)
@@ -201,6 +212,21 @@ func TestWorker(t *testing.T) {
 			deadline = time.Now().Add(time.Duration(s) * time.Second)
 		}
 		nviol := 0
+		var curPlan *Plan
+		OnPoisoned = func(res *RunResult) {
+			rec := RunRecord{Seed: res.Plan.Seed, Class: res.Plan.Class, End: res.Stats.EndReason, Steps: res.Stats.Steps, TaskSteps: res.Stats.TaskSteps,
+				SimTimeNs: int64(res.Stats.SimTime), Cmds: res.Stats.Cmds, Replies: res.Stats.Replies,
+				SchedFp: fmt.Sprintf("%016x", res.Stats.SchedFp), Faults: res.Stats.Faults, Probes: res.Stats.Probes, Extra: res.Extra, Viol: res.Viol}
+			if rdir != "" && res.Viol != nil {
+				path := fmt.Sprintf("%s/raw-%s-%d.json", rdir, pd.id, res.Plan.Seed)
+				writeReplay(path, &ReplayFile{Property: pd.id, Seed: res.Plan.Seed, Plan: curPlan, Tape: res.Tape, Viol: res.Viol})
+				rec.Replay = path
+			}
+			emit(rec)
+			emit(map[string]any{"resume": res.Plan.Seed + 1})
+			out.Sync()
+			os.Exit(0)
+		}
 		for i := 0; i < n; i++ {
 			if !deadline.IsZero() && time.Now().After(deadline) {
 				break
@@ -208,7 +234,16 @@ func TestWorker(t *testing.T) {
 			seed := from + uint64(i)
 			emit(map[string]any{"begin": seed})
 			plan := pd.gen(seed, thorough)
+			curPlan = plan
+			// wall-clock watchdog (real time: this goroutine is outside the bubble)
+			wd := time.AfterFunc(60*time.Second, func() {
+				buf := make([]byte, 1<<20)
+				n := runtime.Stack(buf, true)
+				emit(map[string]any{"hang": seed, "stacks": string(buf[:n])})
+				os.Exit(3)
+			})
 			res := RunPlan(t, plan, newTape(seed), pd.chk, false)
+			wd.Stop()
 			rec := RunRecord{Seed: seed, Class: plan.Class, End: res.Stats.EndReason, Steps: res.Stats.Steps, TaskSteps: res.Stats.TaskSteps,
 				SimTimeNs: int64(res.Stats.SimTime), Cmds: res.Stats.Cmds, Replies: res.Stats.Replies,
 				SchedFp: fmt.Sprintf("%016x", res.Stats.SchedFp), Faults: res.Stats.Faults, Probes: res.Stats.Probes, Extra: res.Extra}
@@ -234,9 +269,22 @@ func TestWorker(t *testing.T) {
 			t.Fatal(err)
 		}
 		pd = props[rf.Property]
+		report := func(res *RunResult) {
+			same := res.Viol != nil && rf.Viol != nil && res.Viol.Fp == rf.Viol.Fp
+			emit(map[string]any{"replayed": true, "same": same, "viol": res.Viol, "end": res.Stats.EndReason, "tape": res.Tape, "turnLog": res.TurnLog})
+		}
+		OnPoisoned = func(res *RunResult) {
+			report(res)
+			if os.Getenv("VS_VERBOSE") != "" {
+				for _, l := range res.Log {
+					fmt.Println(l)
+				}
+				fmt.Println("violation:", res.Viol)
+			}
+			os.Exit(0)
+		}
 		res := RunPlan(t, rf.Plan, replayTape(rf.Tape), pd.chk, true)
-		same := res.Viol != nil && rf.Viol != nil && res.Viol.Fp == rf.Viol.Fp
-		emit(map[string]any{"replayed": true, "same": same, "viol": res.Viol, "end": res.Stats.EndReason})
+		report(res)
 		if os.Getenv("VS_VERBOSE") != "" {
 			for _, l := range res.Log {
 				fmt.Println(l)
@@ -256,19 +304,29 @@ func TestWorker(t *testing.T) {
 		if budget == 0 {
 			budget = 600
 		}
-		// first confirm it fails at all in this process
-		res := RunPlan(t, rf.Plan, replayTape(rf.Tape), pd.chk, false)
-		if res.Viol == nil || res.Viol.Fp != rf.Viol.Fp {
+		run := inProcessRunner(t, pd)
+		wedging := rf.Viol.Oracle == "livelock" || rf.Viol.Oracle == "deadlock"
+		if wedging {
+			// a failing candidate wedges its process: one child process per candidate
+			if budget > 120 {
+				budget = 120
+			}
+			run = childRunner(os.Getenv("VS_SCRATCH"))
+		}
+		// first confirm it fails at all
+		if v, _, _ := run(rf.Plan, rf.Tape); v == nil || v.Fp != rf.Viol.Fp {
 			emit(map[string]any{"shrunk": false, "reason": "does not reproduce"})
 			return
 		}
-		best, runs := shrinkReplay(t, pd, rf, budget)
-		// final run with the event log kept, for the human-readable trace
-		fin := RunPlan(t, best.Plan, replayTape(best.Tape), pd.chk, true)
-		if fin.Viol != nil {
-			best.Viol = fin.Viol
-			best.Tape = fin.Tape
-			best.Events = fin.Log
+		best, runs := shrinkReplay(t, pd, rf, budget, run)
+		if !wedging {
+			// final run with the event log kept, for the human-readable trace
+			fin := RunPlan(t, best.Plan, replayTape(best.Tape), pd.chk, true)
+			if fin.Viol != nil {
+				best.Viol = fin.Viol
+				best.Tape = fin.Tape
+				best.Events = fin.Log
+			}
 		}
 		path := os.Getenv("VS_SHRUNK")
 		if err := writeReplay(path, best); err != nil {
@@ -284,4 +342,45 @@ func countItems(p *Plan) int {
 		n += len(c.Items)
 	}
 	return n
+}
+
+// childRunner runs each candidate in a fresh worker process (replay mode).
+func childRunner(scratch string) runFn {
+	if scratch == "" {
+		scratch = os.TempDir()
+	}
+	n := 0
+	return func(p *Plan, tape []uint32) (*Violation, []uint32, []int) {
+		n++
+		path := fmt.Sprintf("%s/cand-%d-%d.json", scratch, os.Getpid(), n)
+		defer os.Remove(path)
+		// the recorded violation is irrelevant for the child: it reports what it sees
+		writeReplay(path, &ReplayFile{Property: p.Prop, Seed: p.Seed, Plan: p, Tape: tape, Viol: &Violation{}})
+		cmd := exec.Command(os.Args[0], "-test.run", "^TestWorker$", "-test.timeout", "0")
+		cmd.Env = append(os.Environ(), "VS_MODE=replay", "VS_REPLAY="+path, "VS_OUT=", "VS_VERBOSE=")
+		done := make(chan struct{})
+		var outb []byte
+		go func() { outb, _ = cmd.CombinedOutput(); close(done) }()
+		select {
+		case <-done:
+		case <-time.After(90 * time.Second):
+			if cmd.Process != nil {
+				cmd.Process.Kill()
+			}
+			<-done
+			return nil, nil, nil
+		}
+		for _, ln := range strings.Split(string(outb), "\n") {
+			var m struct {
+				Replayed bool       `json:"replayed"`
+				Viol     *Violation `json:"viol"`
+				Tape     []uint32   `json:"tape"`
+				TurnLog  []int      `json:"turnLog"`
+			}
+			if strings.HasPrefix(ln, "{") && json.Unmarshal([]byte(ln), &m) == nil && m.Replayed {
+				return m.Viol, m.Tape, m.TurnLog
+			}
+		}
+		return nil, nil, nil
+	}
 }
